@@ -83,3 +83,22 @@ Theorem C02_call_succeeds_iff_consistent_assignment : forall lbl st params r arg
    exists e, Forall (full_sat lbl st args e) (params ++ [r])).
 Proof. exact call_succeeds_iff_consistent_assignment. Qed.
 Print Assumptions C02_call_succeeds_iff_consistent_assignment.
+
+(* ---------- unions of array annotations: resolved greedily, so NOT "accepted iff a consistent assignment exists" ---------- *)
+(* a typechecker tries the alternatives of Union[A1, A2, ..] in turn against the shared context and keeps the first that accepts
+   (model/UnionWalk.v).  With single alternatives this is the walk above; with real unions the statement of the property is
+   REFUTED in the model -- the witness below is replayed on the implementation by the C02 check (known finding F-C02-union-greedy) *)
+From JT Require Import model.UnionWalk proofs.UnionFacts.
+Theorem C02_union_walk_of_single_alternatives_is_the_walk : forall lbl st us s,
+  walk_union lbl st (map (fun u => ([fst u], snd u)) us) s = walk lbl st us s.
+Proof. exact walk_union_singletons. Qed.
+Print Assumptions C02_union_walk_of_single_alternatives_is_the_walk.
+
+Theorem C02_union_alternatives_resolved_greedily_refuted :
+  let U := [AU "n"; AU "n+1"] in
+  let x := VU [4%Z] in let y := VU [3%Z] in
+  fst (walk_union None st_n1 [(U, x); (U, y)] (push_memo [] [])) = Rej /\
+  fst (walk_union None st_n1 [(U, y); (U, x)] (push_memo [] [])) = Acc /\
+  exists e, Forall (full_sat None st_n1 [] e) [(AU "n", y); (AU "n+1", x)].
+Proof. exact union_greedy_refuted. Qed.
+Print Assumptions C02_union_alternatives_resolved_greedily_refuted.
